@@ -136,7 +136,7 @@ func TestC08SM(t *testing.T) {
 		Name: "TestC08SM", Prop: "C08",
 		Rule: "history in which the four annotations (rolling-update-paused, rollout-frozen, canary-paused, canary-unpaused) are set, flipped and removed (values true/false/absent/garbage) over rollouts in progress (outdated pods - by a new template or by a node's resources override annotation -, missing, unavailable pods, joining nodes, with or without canary); monitors paused-frozen, promotion-rule and the status function (state/reason); then the annotations are removed and the history must converge (resume); non-trivial = an annotation was true during a sync that read work to do (outdated or missing pods); distinct by action trace",
 		Cfg: WorldCfg{MinNodes: 2, MaxNodes: 6, Letters: "ABC", Strategy: gen.StrategyOpts{Canary: 1}, Forks: 1, Affinity: 2, PlainNodes: true, Warmup: 5, StartEdit: 1,
-			Monitors: mon.Of("paused-frozen", "promotion-rule", "status-function", "canary-verdict", "condition-clock", "no-panic"),
+			Monitors: mon.Of("paused-frozen", "promotion-rule", "status-function", "canary-verdict", "condition-clock", "canary-latch", "no-panic"),
 			Weights:  weights(defaultWeights(), map[string]int{"annotation": 8, "edit-template": 4, "node-add": 3, "round": 6, "pod-unknown": 0, "node-taint": 0, "node-relabel": 0, "node-annotate": 3})},
 		MinSteps: 15, MaxSteps: 60,
 		After: func(w *World) { w.stabilise("resume") },
